@@ -1,5 +1,7 @@
 import Rbp.Proofs.Templates
 import Rbp.Proofs.OpReturn
+import Rbp.Proofs.Base58Check
+import Rbp.Proofs.Bech32Decode
 /-!
 # C05 — Bitcoin/testnet3: every output script gets the reference type and address
 The rust-bitcoin predicates are modelled by hand in `S`; these theorems relate the model to byte templates.
@@ -32,6 +34,49 @@ theorem template_verdicts (testnet : Bool) :
     (∀ h : Bytes, h.length = 32 → evalBtc testnet ([0x00, 0x20] ++ h) = ⟨.p2wsh, some (A.segwitAddr (hrp testnet) 0 h)⟩) ∧
     (∀ h : Bytes, h.length = 32 → evalBtc testnet ([0x51, 0x20] ++ h) = ⟨.p2tr, some (A.segwitAddr (hrp testnet) 1 h)⟩) :=
   ⟨eval_p2pkh testnet, eval_p2sh testnet, eval_p2pk testnet, eval_p2wpkh testnet, eval_p2wsh testnet, eval_p2tr testnet⟩
+
+/-- **Base58Check addresses decode to their payload.**  What the executed encoder prints for a payload `p` (prefix byte ‖
+    hash) is decoded by the reference decoder — alphabet lookup, base 58 → base 256 with leading zeros, last four bytes
+    compared with the double-SHA256 of the rest — to exactly `p`: the checksum is valid, the prefix is the network's, the
+    hash is the one embedded in the script -/
+theorem base58check_decodes (p : Bytes) : A.base58checkDecode (A.base58check p) = some p :=
+  A.base58checkDecode_base58check p
+
+/-- **segwit addresses decode to their version and program.**  What the executed encoder prints for (hrp, version < 32,
+    program) starts with `hrp ‖ "1"`, its checksum verifies with the constant of its version (Bech32 for 0, Bech32m for 1..16)
+    and the reference decoder returns exactly the version and the program bytes -/
+theorem segwit_decodes (hrp : String) (ver : Nat) (hv : ver < 32) (prog : Bytes) :
+    A.segwitDecode hrp (A.segwitAddr hrp ver prog) = some (ver, prog) :=
+  A.segwitDecode_segwitAddr hrp ver hv prog
+
+/-- the checksum alone: for any values and either constant, the six values the model appends make the Bech32 state machine
+    end in that constant -/
+theorem bech32_checksum_valid (const : Bech.W) (vs : List Nat) :
+    Bech.polymod ((vs ++ A.checksum const vs).map (BitVec.ofNat 30)) = const :=
+  A.checksum_valid const vs
+
+/-- put together for the canonical templates: the address reported for P2PKH / P2SH / P2PK decodes to the network prefix
+    followed by the embedded hash (HASH160 of the key for P2PK); for P2WPKH / P2WSH / P2TR to the witness version and the
+    embedded program -/
+theorem reported_address_decodes (testnet : Bool) :
+    (∀ h : Bytes, h.length = 20 → ∃ a, (evalBtc testnet ([0x76, 0xa9, 0x14] ++ h ++ [0x88, 0xac])).address = some a ∧
+        A.base58checkDecode a = some (pkPrefix testnet :: h)) ∧
+    (∀ h : Bytes, h.length = 20 → ∃ a, (evalBtc testnet ([0xa9, 0x14] ++ h ++ [0x87])).address = some a ∧
+        A.base58checkDecode a = some (shPrefix testnet :: h)) ∧
+    (∀ k : Bytes, k.length = 33 ∨ k.length = 65 → ∃ a, (evalBtc testnet (UInt8.ofNat k.length :: k ++ [0xac])).address = some a ∧
+        A.base58checkDecode a = some (pkPrefix testnet :: A.hash160 k)) ∧
+    (∀ h : Bytes, h.length = 20 → ∃ a, (evalBtc testnet ([0x00, 0x14] ++ h)).address = some a ∧
+        A.segwitDecode (hrp testnet) a = some (0, h)) ∧
+    (∀ h : Bytes, h.length = 32 → ∃ a, (evalBtc testnet ([0x00, 0x20] ++ h)).address = some a ∧
+        A.segwitDecode (hrp testnet) a = some (0, h)) ∧
+    (∀ h : Bytes, h.length = 32 → ∃ a, (evalBtc testnet ([0x51, 0x20] ++ h)).address = some a ∧
+        A.segwitDecode (hrp testnet) a = some (1, h)) := by
+  obtain ⟨t1, t2, t3, t4, t5, t6⟩ := template_verdicts testnet
+  refine ⟨fun h hh => ⟨_, by rw [t1 h hh], base58check_decodes _⟩, fun h hh => ⟨_, by rw [t2 h hh], base58check_decodes _⟩,
+    fun k hk => ⟨_, by rw [t3 k hk], base58check_decodes _⟩,
+    fun h hh => ⟨_, by rw [t4 h hh], segwit_decodes _ 0 (by omega) h⟩,
+    fun h hh => ⟨_, by rw [t5 h hh], segwit_decodes _ 0 (by omega) h⟩,
+    fun h hh => ⟨_, by rw [t6 h hh], segwit_decodes _ 1 (by omega) h⟩⟩
 
 /-- OP_RETURN and provably unspendable scripts (first opcode of class Return or Illegal) are decided first and never
     carry an address -/
